@@ -886,6 +886,31 @@ func (x *extractor) factsAds() {
 		stamp = collect + ";" + send
 	}
 	x.set("ads_stamp", stamp)
+	// SendPing listens for notices before it sends
+	po := "unknown"
+	if fd := x.fn("pkg/netceptor/ping.go", "", "SendPing"); fd != nil {
+		type mark struct {
+			pos  token.Pos
+			name string
+		}
+		var ms []mark
+		ast.Inspect(fd, func(n ast.Node) bool {
+			if c, ok := n.(*ast.CallExpr); ok {
+				switch x.str(c.Fun) {
+				case "s.ListenPacket", "pc.SetHopsToLive", "pc.SubscribeUnreachable", "pc.WriteTo":
+					ms = append(ms, mark{c.Pos(), strings.TrimPrefix(strings.TrimPrefix(x.str(c.Fun), "s."), "pc.")})
+				}
+			}
+			return true
+		})
+		sort.Slice(ms, func(i, j int) bool { return ms[i].pos < ms[j].pos })
+		var names []string
+		for _, m := range ms {
+			names = append(names, m.name)
+		}
+		po = strings.Join(names, "<")
+	}
+	x.set("ping_order", po)
 	x.set("ads_relay", relay)
 }
 
